@@ -638,8 +638,8 @@ def train_pets(
             steps_per_episode = 0
             obs, _ = env.reset()
             mpc_state.prev_plan = PETSMPCState.initial_plan(mpc_config)
-
-        obs = next_obs
+        else:
+            obs = next_obs
 
     return namedtuple(
         "PETSResult",
